@@ -28,10 +28,13 @@ def run(cx, chk):
     chk.rule("C07.R4", "put_protected: the key ends in protected and nowhere else")
     chk.rule("C07.R5", "non-use operations (peek*, contains, len, per-segment accessors, ...) reach no mutation: they neither promote nor refresh")
     chk.rule("C07.R6", "purge empties every retained list of the cache")
+    chk.rule("C07.R8", "per-segment operations (`*_from_probationary`, `*_from_protected`, `probationary_*`, `protected_*`) look at and change only the segment they name")
     chk.rule("C07.R7", "the segment bounds the policy runs on are the configured ones: SegmentedCacheBuilder methods never cross-wire fields, and a clone keeps each bound in its own field")
     for cfg, F in cx.cfgs():
         composite.builder_setters(cx, chk, cfg, F, "C07.R7", only=("SegmentedCacheBuilder",))
+        composite.role_wiring(cx, chk, cfg, F, "C07.R7")
         composite.clone_bounds(cx, chk, cfg, F, "C07.R7", only=("SegmentedCache",))
+        per_segment(cx, chk, cfg, F)
         composite.policy_hygiene(cx, chk, cfg, F, "SegmentedCache", "C07.R5", "C07.R6")
         for name, trait in (("put", api.CACHE_TRAIT), ("get", api.CACHE_TRAIT), ("get_mut", api.CACHE_TRAIT), ("put_protected", None)):
             f = composite.cache_method(F, ADT, name, trait)
@@ -116,3 +119,36 @@ def route(cx, chk, cfg, F, f, name):
         if name == "put_protected" and k == "hit-probationary" or name != "put_protected":
             if ok and n < 1:
                 raise AnalysisError("C07: no %s path found in %s (%s)" % (k, f["q"], cfg))
+
+
+def per_segment(cx, chk, cfg, F):
+    adt = api.CACHES["SegmentedCache"]
+    segs = [x for x, _ in composite.list_fields(F, adt)]
+    n = 0
+    for f, im in api.cache_methods(F, adt):
+        if im["trait"] or not f.get("exported") or not f.get("has_self") or F.body(f["path"]) is None:
+            continue
+        seg = next((x for x in segs if f["name"].endswith("_from_" + x) or f["name"].startswith(x + "_")), None)
+        if seg is None:
+            continue
+        n += 1
+        other = set()
+        for p in cx.paths(cfg, f["path"]):
+            for e in p.events:
+                locs = []
+                if e["ev"] == "call" and e.get("hm") and e.get("recv"):
+                    locs.append(e["recv"])
+                if e["ev"] in ("store", "swap", "replace") and e.get("loc"):
+                    locs.append(e["loc"])
+                for a in (e.get("args") or []) if e["ev"] in ("enter",) else []:
+                    if isinstance(a, tuple) and a[0] == "ref":
+                        locs.append(a[1])
+                for loc in locs:
+                    if loc[0] == "H" and loc[1] == ("param", 1, True) and loc[2] and loc[2][0] in segs and loc[2][0] != seg:
+                        other.add(loc[2][0])
+        if other:
+            chk.violation("C07.R8", "%s|%s" % (f["q"], ",".join(sorted(other))), "%s is an operation on the %s segment but reaches the %s segment" % (f["q"], seg, ", ".join(sorted(other))),
+                          f["span"]["file"], f["span"]["lo"], f["q"], None, cfg)
+        else:
+            chk.ob("C07.R8", "%s:%s" % (cfg, f["q"]), "confined to %s" % seg)
+    chk.floor("C07.R8", "per-segment operations of SegmentedCache in %s" % cfg, n, 8)
